@@ -12,7 +12,7 @@ RULE = (
     "scan_count, match_count; non-trivial = the control fired at least once; state = (variables, counters, flags, record)"
 )
 BOUNDS = {
-    "quick": "k=1..2 markers, all positions, 12 controls, all files of <=4 records, windows {*, 1*, 1-2, 0+2}",
+    "quick": "k=1..2 markers, all positions, 12 controls, plus every stop/skip/advance control paired with a last() form; all files of <=4 records, windows {*, 1*, 1-2, 0+2}",
     "thorough": "k=1..3 markers (one of them a print), all positions, 12 controls, all files of <=5 records, 9 windows",
 }
 ASSUMPTIONS = [
@@ -76,6 +76,16 @@ def programs(kmax, with_print):
                     yield cname, pos, comps
 
 
+def two_control_programs():
+    """one stop/skip/advance control together with a last() form (which stays the final component)."""
+    for cname, ctrl in CONTROLS.items():
+        if cname.startswith("last"):
+            continue
+        for lname in ("last()->push", "last.nocontrib()->push"):
+            yield f"{cname} + {lname}", 1, [marker(0), ctrl, CONTROLS[lname]]
+            yield f"{cname} + {lname}", 0, [ctrl, marker(0), CONTROLS[lname]]
+
+
 def files(nmax):
     for n in range(0, nmax + 1):
         for pat in itertools.product("knb", repeat=n):
@@ -87,7 +97,7 @@ def cases(tier, seed):
         kmax, nmax, wins, wp = 2, 4, WINDOWS_Q, False
     else:
         kmax, nmax, wins, wp = 3, 5, WINDOWS_T, True
-    progs = list(programs(kmax, wp))
+    progs = list(programs(kmax, wp)) + list(two_control_programs())
     for pat in files(nmax):
         for w in wins:
             # not asserted: scan's final line is a blank record
